@@ -1,7 +1,7 @@
 #!/bin/bash
 # Re-evaluate every seeded change against the quick check of the property it breaks; where a directory also holds a
 # property-preserving change (benign.diff), the same check must stay silent on it.
-# usage: [VERIF_REPO=<scratch copy of /repo>] [REGRESS_ORDER="Cxx ..."] tools/seeded_regress.sh   (default: /repo itself, patched and reverted one at a time)
+# usage: [VERIF_REPO=<scratch copy of /repo>] [REGRESS_ORDER="Cxx ..."] [REGRESS_ONLY="Cxx ..."] tools/seeded_regress.sh   (default: /repo itself, patched and reverted one at a time)
 R=${VERIF_REPO:-/repo}
 cd "$(dirname "$0")/.."
 V=$(pwd)
@@ -10,7 +10,8 @@ pass=0; fail=0; bok=0; bbad=0
 DIRS=$(python3 - <<PY
 import os
 order = os.environ.get('REGRESS_ORDER', '').split()
-ds = sorted(d for d in os.listdir('seeded') if os.path.isdir(os.path.join('seeded', d)))
+only = os.environ.get('REGRESS_ONLY', '').split()
+ds = sorted(d for d in os.listdir('seeded') if os.path.isdir(os.path.join('seeded', d)) and (not only or d[:3] in only))
 key = lambda d: (order.index(d[:3]) if d[:3] in order else len(order), d)
 print(' '.join('seeded/%s/' % d for d in sorted(ds, key=key)))
 PY
